@@ -54,4 +54,19 @@ META.update({
                 note="Date parts (DAY ...) are identifiers in memefish's AST and are not re-cased."),
 })
 
+META.update({
+    "C07": dict(design_ref="DESIGN.md 5/C07", technique=TECH,
+                text="Bounded model checking against an independent reference grouper written from the GoogleSQL operator table: for every operator/prefix/postfix sequence within the bound the shape of ParseExpr's tree equals the reference grouping (or both reject), SQL() re-lexes to the same tokens (no parenthesis added), and the fully parenthesised print of the reference grouping parses with every parenthesis surviving as ParenExpr around exactly that operand.",
+                note="The parser stores each operator spelling, so every sequence is its own path: the solver's role here is the complete enumeration of the choice space (concretisation queries), the grouping comparison itself is concrete per path. Trusted: the reference grouper (DESIGN.md appendix D)."),
+})
+
+META.update({
+    "C11": dict(design_ref="DESIGN.md 5/C11", technique=TECH,
+                text="Bounded model checking: for every ';'-joined list within the bound that lexes, ParseStatements/ParseDDLs/ParseDMLs return a nil error exactly when every non-empty piece of SplitRawStatements is accepted by the single-statement entry point; then the statements are structurally equal to the stand-alone parses and every node position is the stand-alone position shifted by the piece offset.",
+                note="Pieces and separators are solver-enumerated vocabulary choices; a piece is non-empty if it contains a significant token."),
+    "C12": dict(design_ref="DESIGN.md 5/C12", technique=TECH,
+                text="Bounded model checking against the real lexer's token/comment stream: the splitter fails exactly when the lexer does; otherwise pieces are in-range, ordered, equal to input[Pos:End], contain no ';' token, gaps hold exactly one ';' plus whitespace, and every other token and every comment lies in exactly one piece.",
+                note="S1 bytes are fully symbolic; soup entries are concretised (one path per sequence)."),
+})
+
 NOT_APPLICABLE = {}
